@@ -62,6 +62,17 @@ impl Histogram {
     }
 }
 
+#[cfg(metrique_verif)]
+impl Histogram {
+    /// Verification accessor: `count` occurrences of `value` in one step, i.e. what `count` calls of
+    /// [`Histogram::record`] leave behind.
+    pub fn verif_add(&self, value: u32, count: u64) {
+        self.inner
+            .add(value as u64, count)
+            .expect("known within bounds because of type");
+    }
+}
+
 fn midpoint(range: RangeInclusive<u64>) -> u64 {
     let size = range.end() - range.start();
     range.start() + size / 2
